@@ -38,7 +38,7 @@ Definition ctx_readers : list string :=
 Definition lock_fields : list string := ["rwork"; "workqueue"; "workbuf"].
 Definition lockw_fields : list string := ["nc"; "inCh"; "queryTQ"; "workcond"].
 Definition config_fields : list string :=
-  ["logger"; "queueGroup"; "resetResources"; "resetAccess"; "queryDuration"; "workerCount"; "inChannelSize";
+  ["logger"; "queueGroup"; "resetResources"; "resetAccess"; "ownedResources"; "ownedAccess"; "queryDuration"; "workerCount"; "inChannelSize";
    "onServe"; "onDisconnect"; "onReconnect"; "onError"].
 
 Definition loc_ok (a : acc) : bool :=
@@ -54,10 +54,20 @@ Definition loc_ok (a : acc) : bool :=
     else false                       (* unclassified field: must be classified before it is accepted *)
   else if String.eqb (a_struct a) "work" then
     if inb (a_field a) ["queue"; "single"] then a_locked a
-    else if String.eqb (a_field a) "wid" then negb (a_write a)      (* immutable after construction *)
+    else if inb (a_field a) ["wid"; "s"] then negb (a_write a)      (* immutable after construction *)
     else false
   else if String.eqb (a_struct a) "queryEvent" then negb (a_write a)  (* immutable after construction *)
   else false.
+
+(* the field is one the policy knows about.  An access to a field the policy does not classify (a field added by
+   a change) is not a lockset violation by itself: it is absent from the committed table, which breaks the
+   correspondence (reported as such), and the race-detector runs look for a concrete conflicting access. *)
+Definition classified (a : acc) : bool :=
+  if String.eqb (a_struct a) "Service" then
+    String.eqb (a_field a) "state" || inb (a_field a) lock_fields || inb (a_field a) lockw_fields ||
+    inb (a_field a) config_fields || inb (a_field a) ["wg"; "mu"]
+  else if String.eqb (a_struct a) "work" then inb (a_field a) ["queue"; "single"; "wid"; "s"]
+  else String.eqb (a_struct a) "queryEvent".
 
 Definition acc_eqb (a b : acc) : bool :=
   String.eqb (a_func a) (a_func b) && String.eqb (a_struct a) (a_struct b) && String.eqb (a_field a) (a_field b) &&
